@@ -370,7 +370,7 @@ class World:
             return cache[path]
         b = self.prog.body(path)
         val = None
-        if b is not None and not b.ext and len(b.blocks) <= 4 and sum(len(bl["stmts"]) for bl in b.blocks) <= 400:
+        if b is not None and not b.ext and len(b.blocks) <= 64 and sum(len(bl["stmts"]) for bl in b.blocks) <= 400:
             sub = State()
             sub.nuid = 50_000
             fr = Frame(b, sub.fresh())
